@@ -1932,3 +1932,83 @@ pub fn castlefile(shard: usize, f: Sink) {
         }
     }
 }
+
+// ---------------------------------------------------------------------------------------------
+// HEMMED: an enemy slider whose neighbours are all its own men (it cannot move, but it protects)
+
+/// shard = slider square
+pub const HEMMED_SHARDS: usize = 64;
+
+/// Enemy slider X in {R, B, Q} on the shard square; the neighbours in its move directions that
+/// exist on the board (4 for R and B, 8 for Q) all hold enemy men: each a knight or a pawn, or
+/// one of them the enemy king; the king of the side to move on every square from which it
+/// attacks one of those neighbours; both colours. Captures of protected men by the king, next to
+/// a protector that has no move of its own.
+pub fn hemmed(shard: usize, f: Sink) {
+    let x = shard;
+    let (xf, xr) = (file_of(x), rank_of(x));
+    let on = |f: i32, r: i32| (0..8).contains(&f) && (0..8).contains(&r);
+    for own in 0..2u8 {
+        let opp = 1 - own;
+        for &xk in &[R, B, Q] {
+            let dirs: Vec<(i32, i32)> = match xk {
+                R => vec![(1, 0), (-1, 0), (0, 1), (0, -1)],
+                B => vec![(1, 1), (1, -1), (-1, 1), (-1, -1)],
+                _ => vec![(1, 0), (-1, 0), (0, 1), (0, -1), (1, 1), (1, -1), (-1, 1), (-1, -1)],
+            };
+            let nb: Vec<usize> = dirs.iter().filter(|(a, b)| on(xf + a, xr + b)).map(|(a, b)| sq(xf + a, xr + b)).collect();
+            if nb.len() < 2 {
+                continue;
+            }
+            let n = nb.len();
+            // each neighbour: 0 = knight, 1 = pawn; king position: none (index n) or one of them
+            for kpos in 0..=n {
+                for code in 0..(1usize << n) {
+                    let mut p = Pos::empty();
+                    p.stm = own;
+                    p.b[x] = mk(opp, xk);
+                    let mut ok = true;
+                    for (i, &s) in nb.iter().enumerate() {
+                        if i == kpos {
+                            p.b[s] = mk(opp, K);
+                        } else if code >> i & 1 == 0 {
+                            p.b[s] = mk(opp, N);
+                        } else if rank_of(s) == 0 || rank_of(s) == 7 {
+                            ok = false;
+                        } else {
+                            p.b[s] = mk(opp, P);
+                        }
+                    }
+                    // the bit of the king's slot is unused: take each king case once
+                    if !ok || (kpos < n && code >> kpos & 1 != 0) {
+                        continue;
+                    }
+                    if kpos == n {
+                        // enemy king far away: first free corner
+                        match [0usize, 7, 56, 63].iter().find(|&&c| p.b[c] == EMPTY && (file_of(c) - xf).abs().max((rank_of(c) - xr).abs()) >= 3) {
+                            Some(&c) => p.b[c] = mk(opp, K),
+                            None => continue,
+                        }
+                    }
+                    // own king next to any of the neighbours
+                    let mut seen = [false; 64];
+                    for &s in &nb {
+                        for (a, b) in [(1, 0), (-1, 0), (0, 1), (0, -1), (1, 1), (1, -1), (-1, 1), (-1, -1)] {
+                            if !on(file_of(s) + a, rank_of(s) + b) {
+                                continue;
+                            }
+                            let k = sq(file_of(s) + a, rank_of(s) + b);
+                            if p.b[k] != EMPTY || seen[k] {
+                                continue;
+                            }
+                            seen[k] = true;
+                            let mut q = p;
+                            q.b[k] = mk(own, K);
+                            emit_if_valid(&q, f);
+                        }
+                    }
+                }
+            }
+        }
+    }
+}
